@@ -1,5 +1,177 @@
 import ZoektModel.Basic.Proto
+import ZoektModel.C29.Spec
 namespace ZoektModel.C29
-/-- stub: no model driver for C29 yet -/
-def main : IO Unit := ZoektModel.Proto.runLines (fun _ => ZoektModel.Proto.badCase "no model driver for C29")
+open ZoektModel ZoektModel.Proto
+
+def hexNat? (s : String) : Option Nat :=
+  if s.isEmpty then none else
+  s.toList.foldlM (fun acc c => (hexVal c).map (acc * 16 + ·)) 0
+
+/-- a float token: 16 hex digits of the IEEE bits -/
+def floatTok? (s : String) : Option (Nat × Score) := (hexNat? s).map fun b => (b, decodeFloat b)
+
+def frOfTok? (s : String) : Option Fr := (floatTok? s).map fun p => scoreToFr p.2
+
+def hex16 (n : Nat) : String :=
+  let ds := Nat.toDigits 16 n
+  String.ofList (List.replicate (16 - ds.length) '0' ++ ds)
+
+def list? {α} (sep : String) (f : String → Option α) (s : String) : Option (List α) :=
+  if s == "-" then some [] else (s.splitOn sep).mapM f
+
+def parseSecs (s : String) : Option (List Sec) :=
+  list? "," (fun e => match e.splitOn ":" with
+    | [a, b] => do pure ⟨← a.toNat?, ← b.toNat?⟩
+    | _ => none) s
+
+def parseKinds (s : String) : Option (List (Option Fr)) :=
+  list? "," (fun e => if e == "n" then some none else (frOfTok? e).map some) s
+
+def parseCands (s : String) : Option (List Cand) :=
+  list? ";" (fun e => match e.splitOn ":" with
+    | [f, off, sz, w, sym, si, t] => do
+      pure ⟨← bool? f, ← off.toNat?, ← sz.toNat?, ← frOfTok? w, ← bool? sym, ← si.toNat?, t⟩
+    | _ => none) s
+
+def parseDoc (d f secs kinds nls size : String) : Option DocCtx := do
+  pure ⟨← hexToBytes? d, ← hexToBytes? f, ← parseSecs secs, ← parseKinds kinds, ← natList? nls, ← size.toNat?⟩
+
+def showFr (x : Fr) : String := s!"~{x.num}/{x.den}"
+
+/-- the model's score, printed as the implementation's token when the two agree within the tolerance -/
+def scoreTok (implTok : String) (model : Fr) : String :=
+  match frOfTok? implTok with
+  | some i => if closeTo i model then implTok else showFr model
+  | none => showFr model
+
+def kv (s key : String) : Option String :=
+  if s.startsWith (key ++ "=") then some (s.drop (key.length + 1)).toString else none
+
+def dbgTok (l : List String) : String := if l.isEmpty then "0" else "1"
+
+def parseEnts (s : String) : Option (List FileEnt) :=
+  list? ";" (fun e => match e.splitOn ":" with
+    | [b, ext, id] => do
+      let (_, sc) ← floatTok? b
+      pure ⟨← sc, ext, ← id.toNat?⟩
+    | _ => none) s
+
+def isPermIds (a b : List Nat) : Bool :=
+  a.length == b.length && a.all (fun x => a.count x == b.count x)
+
+def handle (line : String) : String :=
+  let (inp, impl) := splitCase line
+  match fields inp with
+  | ["line", bm25, dbg, ln, d, f, secs, kinds, nls, size, cands] =>
+    match bool? bm25, bool? dbg, ln.toInt?, parseDoc d f secs kinds nls size, parseCands cands with
+    | some bm25, some dbg, some ln, some dc, some ms =>
+      let a := scoreLine dc bm25 dbg ms ln
+      match fields impl with
+      | [s, g] =>
+        match kv s "score", kv g "dbg" with
+        | some st, some _ =>
+          let model := s!"score={scoreTok st a.score} dbg={dbgTok a.what}"
+          match floatTok? st with
+          | some (_, some _) => answer model
+          | some (_, none) => specFail model "line-score-not-finite"
+          | none => badCase "impl float"
+        | _, _ => badCase "impl output"
+      | _ => badCase "impl output"
+    | _, _, _, _, _ => badCase "fields"
+  | ["chunk", bm25, dbg, d, f, secs, kinds, nls, size, cands] =>
+    match bool? bm25, bool? dbg, parseDoc d f secs kinds nls size, parseCands cands with
+    | some bm25, some dbg, some dc, some ms =>
+      let (a, best) := scoreChunk dc bm25 dbg ms
+      match fields impl with
+      | [s, _, _] =>
+        match kv s "score" with
+        | some st =>
+          let model := s!"score={scoreTok st a.score} best={best} dbg={dbgTok a.what}"
+          match floatTok? st with
+          | some (_, some _) => answer model
+          | some (_, none) => specFail model "chunk-score-not-finite"
+          | none => badCase "impl float"
+        | none => badCase "impl output"
+      | _ => badCase "impl output"
+    | _, _, _, _ => badCase "fields"
+  | ["file", dbg, atoms, rank, doc, nb, lines] =>
+    match bool? dbg, atoms.toNat?, rank.toNat?, doc.toNat?, nb.toNat?, list? "," frOfTok? lines with
+    | some dbg, some atoms, some rank, some doc, some nb, some ls =>
+      let r := scoreFile dbg atoms ls rank doc nb
+      match fields impl with
+      | [s, l, _] =>
+        match kv s "score", kv l "lines" with
+        | some st, some lt =>
+          let ltoks := if lt == "-" then [] else lt.splitOn ","
+          let mlines := if ltoks.length == r.lines.length
+            then showList id ((ltoks.zip r.lines).map fun p => scoreTok p.1 p.2)
+            else showList showFr r.lines
+          let model := s!"score={scoreTok st r.score} lines={mlines} dbg={dbgTok r.debug}"
+          let fin := (floatTok? st).map (·.2.isSome) == some true &&
+            ltoks.all (fun t => (floatTok? t).map (·.2.isSome) == some true)
+          if fin then answer model else specFail model "file-score-not-finite"
+        | _, _ => badCase "impl output"
+      | _ => badCase "impl output"
+    | _, _, _, _, _, _ => badCase "fields"
+  | ["filebm25", lp, total, nd, db, d, f, secs, kinds, nls, size, cands] =>
+    match bool? lp, total.toNat?, nd.toNat?, db.toNat?, parseDoc d f secs kinds nls size, parseCands cands with
+    | some lp, some total, some nd, some db, some dc, some ms =>
+      let sc := scoreFileBM25 dc ms lp total nd db
+      match kv impl "score" with
+      | some st =>
+        let model := s!"score={scoreTok st sc}"
+        match floatTok? st with
+        | some (_, some _) => answer model
+        | some (_, none) => specFail model "bm25-file-score-not-finite"
+        | none => badCase "impl float"
+      | none => badCase "impl output"
+    | _, _, _, _, _, _ => badCase "fields"
+  | ["sortm", toks] =>
+    match list? "," floatTok? toks, list? "," floatTok? impl with
+    | some inp, some out =>
+      if !(allFinite (inp.map (·.2))) then badCase "non-finite input" else
+      let sorted := sortDesc (fun p : Nat × Score => p.2.getD 0) inp
+      let model := showList (fun p : Nat × Score => hex16 p.1) sorted
+      -- spec on the implementation's output: non-increasing
+      if !(matchesSorted (out.map (·.2))) then specFail model "matches-not-sorted"
+      else
+        -- compare as value sequences (equal scores are interchangeable)
+        if sorted.map (·.2) == out.map (·.2) then answer impl else answer model
+    | _, _ => badCase "fields"
+  | ["sortf", ties, ents] =>
+    match bool? ties, parseEnts ents, natList? impl with
+    | some ties, some es, some ids =>
+      let m := sortFiles es
+      let model := showNatList (m.map (·.id))
+      let out := ids.filterMap fun i => es.find? (·.id == i)
+      if !(isPermIds ids (es.map (·.id))) then specFail model "sortfiles-not-a-permutation"
+      else if !(filesSortedExceptPromotion out) then specFail model "files-not-sorted-except-promotion"
+      else if ties then answer impl   -- with equal scores Go's unstable sort may order differently: spec only
+      else answer model
+    | _, _, _ => badCase "fields"
+  | ["boost", off, num, den, ents] =>
+    match off.toNat?, num.toInt?, den.toInt?, parseEnts ents with
+    | some off, some num, some den, some es =>
+      answer (showNatList ((boostNovelExtension es off num den).map (·.id)))
+    | _, _, _, _ => badCase "fields"
+  | ["rank", files] =>
+    -- an observed end-to-end result: `scoreBits:ext:line/line/...;...`
+    let parsed := list? ";" (fun e => match e.splitOn ":" with
+      | [b, ext, ls] => do
+        let (_, sc) ← floatTok? b
+        let lines ← list? "/" floatTok? ls
+        pure (sc, ext, lines.map (·.2))
+      | _ => none) files
+    match parsed with
+    | none => badCase "fields"
+    | some fs =>
+      if !(allFinite (fs.map (·.1))) || !(fs.all fun f => allFinite f.2.2) then specFail "ok" "score-not-finite"
+      else if !(fs.all fun f => matchesSorted f.2.2) then specFail "ok" "matches-not-sorted"
+      else
+        let ents := fs.zipIdx.map fun (f, i) => (⟨f.1.getD 0, f.2.1, i⟩ : FileEnt)
+        if !(filesSortedExceptPromotion ents) then specFail "ok" "files-not-sorted-except-promotion"
+        else answer "ok"
+  | _ => badCase "op"
+
+def main : IO Unit := runLines handle
 end ZoektModel.C29
